@@ -28,6 +28,7 @@ type srvInst struct {
 	s   *server.Server
 	ns  *server.NodeNameSpace
 	v   *server.Node
+	v2  *server.Node
 	val int32
 }
 
@@ -39,13 +40,15 @@ func startServer(port int, val int32) (*srvInst, error) {
 	)
 	ns := server.NewNodeNameSpace(s, "vf")
 	v := ns.AddNewVariableStringNode("v1", val)
+	v2 := ns.AddNewVariableStringNode("v2", val)
 	if root := s.Node(ua.NewNumericNodeID(0, id.ObjectsFolder)); root != nil {
 		ns.Objects().AddRef(v, id.HasComponent, true)
+		ns.Objects().AddRef(v2, id.HasComponent, true)
 	}
 	var err error
 	for i := 0; i < 40; i++ {
 		if err = s.Start(context.Background()); err == nil {
-			return &srvInst{s: s, ns: ns, v: v, val: val}, nil
+			return &srvInst{s: s, ns: ns, v: v, v2: v2, val: val}, nil
 		}
 		time.Sleep(50 * time.Millisecond)
 	}
@@ -58,6 +61,9 @@ func (si *srvInst) set() {
 		EncodingMask: ua.DataValueValue | ua.DataValueSourceTimestamp}
 	si.v.SetAttribute(ua.AttributeIDValue, &dv)
 	si.ns.ChangeNotification(si.v.ID())
+	dv2 := dv
+	si.v2.SetAttribute(ua.AttributeIDValue, &dv2)
+	si.ns.ChangeNotification(si.v2.ID())
 }
 
 func serverMain() {
